@@ -125,7 +125,7 @@ fn small_val(rng: &mut Rng, ty: Ty) -> CVal {
 const SIMPLE_TYS: [Ty; 7] = [Ty::A, Ty::B, Ty::E, Ty::V, Ty::Transform, Ty::Name, Ty::Visibility];
 
 /// fault enumeration (C08): message kind x receiver condition x direction, then a fresh operation
-const FAULT_CASES: usize = 17;
+const FAULT_CASES: usize = 20;
 
 fn fault_history(seed: u64, idx: usize, out: &mut impl Write) {
     let mut rng = Rng::new(seed.wrapping_mul(7_000_003) ^ (idx as u64) ^ 0xFA17);
@@ -135,20 +135,25 @@ fn fault_history(seed: u64, idx: usize, out: &mut impl Write) {
     // registration sets: case 3 registers B on the sender only
     let mut host_cfg = PeerCfg::default();
     let mut client_cfg = PeerCfg::default();
+    if case >= 17 {
+        // references inside a payload: a SkinnedMesh names its joints by uuid
+        host_cfg.registered.push(Ty::Skinned);
+        client_cfg.registered.push(Ty::Skinned);
+    }
     if case == 3 {
         let without_b: Vec<Ty> = PeerCfg::default().registered.into_iter().filter(|t| *t != Ty::B).collect();
         if to_host { host_cfg.registered = without_b } else { client_cfg.registered = without_b }
     }
     let mut c = Ctx { s: Session::new(false, host_cfg), rng: rng.fork(), next_h: 0, live: vec![], nclients };
     for k in 0..nclients {
-        let cfg = if k == 0 { PeerCfg { registered: client_cfg.registered.clone(), ..PeerCfg::default() } } else { PeerCfg::default() };
+        let cfg = if k == 0 || case >= 17 { PeerCfg { registered: client_cfg.registered.clone(), ..PeerCfg::default() } } else { PeerCfg::default() };
         c.s.add_client(cfg, rng.below(3));
     }
     let names = ["comp+despawn_cmd", "comp+despawn_between", "comp+delete_same_frame", "comp_unregistered_on_receiver",
         "parented+child_despawn_cmd", "parented+parent_despawn_cmd", "parented+parent_despawn_between", "parented+child_despawn_between",
         "delete+delete_crossing", "delete+despawn_cmd", "spawn+delete_same_frame", "comp_burst+despawn_cmd",
         "parented_chain+despawn_cmd", "comp+sender_despawns_after_write", "reparent+old_parent_despawn_cmd", "delete_parent_with_child",
-        "comp_large_value"];
+        "comp_large_value", "skinned+joint_despawn_between", "skinned+joint_despawn_cmd", "skinned+joint_deleted_by_sender"];
     writeln!(out, "{}", json!({"ev":"history","family":"fault","id":format!("fault-{}-{}", seed, idx),"clients":nclients,"v6":false,
         "case":names[case],"to_host":to_host})).unwrap();
     let types: serde_json::Map<String, serde_json::Value> =
@@ -192,6 +197,18 @@ fn fault_history(seed: u64, idx: usize, out: &mut impl Write) {
                 c.s.set_parent(snd, x, z); c.s.step(snd); c.s.despawn_in_frame(rcv, y); }
         15 => { c.s.set_parent(snd, x, y); let d = c.drain(40); c.s.trace.push(json!({"ev":"drain","quiescent":d.0,"rounds":d.1}));
                c.s.despawn(snd, y); c.s.step(snd); }
+        17 | 18 | 19 => {
+            // x is skinned over the joints y, z everywhere; a second update naming both crosses the removal of y
+            c.s.write(snd, x, &CVal::new(Ty::Skinned, 100), &[y, z]);
+            let d = c.drain(60);
+            c.s.trace.push(json!({"ev":"drain","quiescent":d.0,"rounds":d.1}));
+            c.s.write(snd, x, &CVal::new(Ty::Skinned, 200), &[z, y, z]);
+            match case {
+                17 => { c.s.step(snd); c.s.despawn(rcv, y); }
+                18 => { c.s.step(snd); c.s.despawn_in_frame(rcv, y); }
+                _ => { c.s.despawn(snd, y); c.s.step(snd); c.s.step(snd); }
+            }
+        }
         _ => {
             // one component value of 70 – 300 kB: a single protocol message far beyond one packet (nothing bounds a value)
             let mut v = CVal::new(Ty::V, 9);
@@ -233,6 +250,92 @@ fn fault_history(seed: u64, idx: usize, out: &mut impl Write) {
     let panicked = c.s.panicked.clone();
     c.s.emit(out);
     writeln!(out, "{}", json!({"ev":"end","panic":panicked.map(|(p, m)| json!({"peer":p,"msg":m}))})).unwrap();
+}
+
+/// C06, timing of the download: first GET answered with headers + half of the OLD body and finished only when released,
+/// every later GET answered at once with the NEW body
+fn slow_endpoint_case(c: &mut Ctx) {
+    use std::io::{Read, Write as _};
+    use std::sync::atomic::{AtomicBool, AtomicUsize, Ordering};
+    use std::sync::{mpsc, Arc, Mutex};
+    let listener = std::net::TcpListener::bind("127.0.0.1:0").unwrap();
+    let port = listener.local_addr().unwrap().port();
+    let old_n = c.rng.range(40, 4000);
+    let new_n = c.rng.range(1, 4000);
+    let old: Vec<u8> = (0..old_n).map(|i| 0x11 ^ (i as u8)).collect();
+    let new: Vec<u8> = (0..new_n).map(|i| 0x22 ^ (i as u8).wrapping_mul(3)).collect();
+    let half_sent = Arc::new(AtomicBool::new(false));
+    let gets = Arc::new(AtomicUsize::new(0));
+    let (tx, rx) = mpsc::channel::<()>();
+    let rx = Arc::new(Mutex::new(rx));
+    {
+        let (old, new, half_sent, gets, rx) = (old.clone(), new.clone(), half_sent.clone(), gets.clone(), rx.clone());
+        std::thread::spawn(move || {
+            for conn in listener.incoming() {
+                let Ok(mut s) = conn else { continue };
+                let (old, new, half_sent, gets, rx) = (old.clone(), new.clone(), half_sent.clone(), gets.clone(), rx.clone());
+                std::thread::spawn(move || {
+                    let mut req = vec![];
+                    let mut b = [0u8; 1];
+                    while !req.ends_with(b"\r\n\r\n") {
+                        match s.read(&mut b) {
+                            Ok(1) => req.push(b[0]),
+                            _ => return,
+                        }
+                    }
+                    let k = gets.fetch_add(1, Ordering::SeqCst);
+                    if k == 0 {
+                        let _ = write!(s, "HTTP/1.1 200 OK\r\nContent-Length: {}\r\nConnection: close\r\n\r\n", old.len());
+                        let _ = s.write_all(&old[..old.len() / 2]);
+                        let _ = s.flush();
+                        half_sent.store(true, Ordering::SeqCst);
+                        let _ = rx.lock().unwrap().recv_timeout(std::time::Duration::from_secs(20));
+                        let _ = s.write_all(&old[old.len() / 2..]);
+                    } else {
+                        let _ = write!(s, "HTTP/1.1 200 OK\r\nContent-Length: {}\r\nConnection: close\r\n\r\n", new.len());
+                        let _ = s.write_all(&new);
+                    }
+                    let _ = s.flush();
+                });
+            }
+        });
+    }
+    let id = uuid::Uuid::from_bytes(c.rng.bytes(16).try_into().unwrap());
+    let url = format!("http://127.0.0.1:{}/audio/{}", port, id);
+    let d = c.drain(80);
+    c.s.trace.push(json!({"ev":"drain","quiescent":d.0,"rounds":d.1}));
+    // the scenario needs exactly one reader of the first answer: the others get only the second announcement's content
+    c.s.announce_external_audio(id, &url);
+    let mut waited = 0;
+    while !half_sent.load(Ordering::SeqCst) && waited < 400 {
+        c.lockstep(1);
+        std::thread::sleep(std::time::Duration::from_millis(2));
+        waited += 1;
+    }
+    std::thread::sleep(std::time::Duration::from_millis(150));
+    c.lockstep(2);
+    let early: Vec<bool> = (1..=c.nclients).map(|p| c.s.audio_bytes(p, id).is_some()).collect();
+    c.s.announce_external_audio(id, &url);
+    let mut rounds = 0;
+    while rounds < 400 && !(1..=c.nclients).all(|p| c.s.audio_bytes(p, id).as_deref() == Some(&new[..])) {
+        c.lockstep(1);
+        std::thread::sleep(std::time::Duration::from_millis(2));
+        rounds += 1;
+    }
+    let got_new: Vec<bool> = (1..=c.nclients).map(|p| c.s.audio_bytes(p, id).as_deref() == Some(&new[..])).collect();
+    let _ = tx.send(());
+    std::thread::sleep(std::time::Duration::from_millis(250));
+    c.lockstep(20);
+    let fin: Vec<&str> = (1..=c.nclients)
+        .map(|p| match c.s.audio_bytes(p, id) {
+            Some(b) if b == new => "new",
+            Some(b) if b == old => "old",
+            Some(_) => "other",
+            None => "none",
+        })
+        .collect();
+    c.s.trace.push(json!({"ev":"slow_endpoint","uuid":bsharness::hex(id.as_bytes()),"half_sent":half_sent.load(Ordering::SeqCst),
+        "applied_before_release":early,"new_applied":got_new,"final":fin,"gets":gets.load(Ordering::SeqCst),"old_len":old_n,"new_len":new_n}));
 }
 
 /// connection life cycles (C15): start hosting / connect / remove transports / reconnect, with the
@@ -686,6 +789,37 @@ fn history(family: &str, seed: u64, idx: usize, thorough: bool, out: &mut impl W
                     }
                 }
             }
+            // one history in six: a large body is overwritten by a small one while its download is still running on the
+            // readers (the answer to the newer request must win, whichever download finishes first)
+            if idx % 6 == 2 {
+                let d = c.drain(80);
+                c.s.trace.push(json!({"ev":"drain","quiescent":d.0,"rounds":d.1}));
+                let w = c.any_peer();
+                let id = uuid::Uuid::from_bytes(c.rng.bytes(16).try_into().unwrap());
+                let mib = c.rng.range(24, 56) as u64;
+                c.s.asset_insert(w, AKind::Audio, Some(id), mib * 1_000_000 + c.rng.below(1000) as u64);
+                c.s.step(w);
+                for _ in 0..c.rng.range(1, 3) {
+                    for p in 0..c.peers() {
+                        if p != w {
+                            c.s.step(p);
+                        }
+                    }
+                }
+                c.s.trace.push(json!({"ev":"overwrite","peer":w,"prev":w,"during_download":true}));
+                c.s.asset_insert(w, AKind::Audio, Some(id), 1000 + c.rng.below(1000) as u64);
+                c.s.step(w);
+                c.drain(200);
+                std::thread::sleep(std::time::Duration::from_millis(500));
+                c.lockstep(4);
+                let d = c.drain(80);
+                c.s.trace.push(json!({"ev":"drain","quiescent":d.0,"rounds":d.1}));
+            }
+            // one history in six: the endpoint an announcement points at answers slowly (headers and half of the body, the rest
+            // later) and the uuid is announced again meanwhile: the answer to the newer request must be what the readers keep
+            if idx % 6 == 5 && c.nclients >= 1 {
+                slow_endpoint_case(&mut c);
+            }
         }
         "filter" => {
             const TYS: [Ty; 5] = [Ty::A, Ty::B, Ty::E, Ty::V, Ty::U];
@@ -726,6 +860,26 @@ fn history(family: &str, seed: u64, idx: usize, thorough: bool, out: &mut impl W
                                 let t = *c.rng.pick(&TYS[..4]);
                                 let on = c.rng.chance(2, 3);
                                 c.s.exclude(p, h, t, on);
+                            }
+                        }
+                        5 => {
+                            // an exclusion replaced in place: removed and put back (or put and removed) with no frame in between,
+                            // around a value the other peers do not have
+                            if !c.live.is_empty() {
+                                let h = *c.rng.pick(&c.live.clone());
+                                let t = *c.rng.pick(&TYS[..4]);
+                                let excluded = c.rng.chance(2, 3);
+                                c.s.exclude(p, h, t, excluded);
+                                if c.rng.chance(1, 2) {
+                                    c.random_steps();
+                                }
+                                let v = small_val(&mut c.rng, t);
+                                c.s.write(p, h, &v, &[]);
+                                if c.rng.chance(1, 2) {
+                                    c.s.step(p);
+                                }
+                                c.s.exclude(p, h, t, !excluded);
+                                c.s.exclude(p, h, t, excluded);
                             }
                         }
                         _ => {
@@ -1091,6 +1245,21 @@ fn history(family: &str, seed: u64, idx: usize, thorough: bool, out: &mut impl W
                     }
                 }
             }
+            // a crowded world (one history in eighteen): the snapshot is hundreds of messages and reaches the joiner in bursts
+            let crowded = idx % 18 == 4;
+            if crowded {
+                let w = c.any_peer();
+                let n = c.rng.range(300, 800);
+                c.s.trace.push(json!({"ev":"epoch","writer":w,"crowd":n}));
+                for _ in 0..n {
+                    let h = c.fresh();
+                    let v = small_val(&mut c.rng, Ty::A);
+                    c.s.spawn(w, h, true, &[v], None);
+                    c.live.push(h);
+                }
+                let d = c.drain(300);
+                c.s.trace.push(json!({"ev":"drain","quiescent":d.0,"rounds":d.1}));
+            }
             // the session before the join: epochs of one writer each, drained in between
             for _ in 0..rounds {
                 let w = c.any_peer();
@@ -1141,6 +1310,15 @@ fn history(family: &str, seed: u64, idx: usize, thorough: bool, out: &mut impl W
             for j in comers.clone() {
                 c.s.connect(j);
                 c.s.trace.push(json!({"ev":"join_begin","peer":j,"writer":w}));
+                if crowded {
+                    // the host runs ahead: whole bursts of the snapshot wait in the joiner's socket
+                    for _ in 0..c.rng.range(10, 40) {
+                        for _ in 0..c.rng.range(2, 6) {
+                            c.s.step(0);
+                        }
+                        c.s.step(j);
+                    }
+                }
                 // the handshake and the snapshot run while the writer goes on
                 for _ in 0..c.rng.below(14) {
                     for _ in 0..c.rng.below(3) {
